@@ -382,6 +382,33 @@ func runC07(c *engine.Ctx) {
 				}
 			}
 		}
+		// the budget object is per request: every non-nil value reaching TraversalBuilder.Budget is allocated in this function
+		for _, st := range engine.StoresTo([]*ssa.Function{fn}, tb) {
+			fresh := true
+			var walk func(v ssa.Value, d int)
+			walk = func(v ssa.Value, d int) {
+				if d == 0 {
+					fresh = false
+					return
+				}
+				switch x := v.(type) {
+				case *ssa.Phi:
+					for _, e := range x.Edges {
+						walk(e, d-1)
+					}
+				case *ssa.Alloc:
+				case *ssa.Const:
+					if !engine.IsNilConst(x) {
+						fresh = false
+					}
+				default:
+					fresh = false
+				}
+			}
+			walk(st.Val, 4)
+			c.Decide(r3, key+"|fresh-budget-per-request", st.Pos(), fresh, "the budget handed to the traversal is a fresh object (or nil) for each request",
+				"the traversal is handed a budget object that is not allocated for this request: the counter is decremented in place, so requests share one allowance and later ones are cut short")
+		}
 		c.Decide(r3, key, lbStore.Pos(), bad == "",
 			fmt.Sprintf("for all %d (global, per-request) pairs over {0,1,2,3}² — every weak ordering incl. ties and zeros — LinkBudget = min non-zero, Budget nil iff both zero", n), bad)
 	}
